@@ -84,12 +84,12 @@ def plan(tier, seed):
     for idx in total.TC_SUP:
         for tl in (True, False):
             fin = not (idx in total.LOGGY_GAMMA and not tl)
-            if idx == 11 and not tl and not thorough:
-                fin = False   # xvYCC to_gamma with the finite clause needs ~15 min: thorough tier only
+            if ((idx == 11 and not tl) or idx == 16) and not thorough:
+                fin = False   # xvYCC to_gamma and PQ with the finite clause need 8-15 min: thorough tier only
             n, code = total.transfer(idx, tl, finite_clause=fin)
             add(n, code, "%s %s: no panic on any float; finite on [0,1]%s" % (total.TC_NAMES[idx], "to_linear" if tl else "to_gamma", "" if fin else " (finite clause skipped: ln/log10 over-approximated)"),
                 "one component over all 2^32 bit patterns", ["NaN pixel explored", "+inf pixel explored", "huge negative pixel explored", "conversion succeeded"],
-                ["tr", "lin" if tl else "gam", idx], ["in_x"], to=3000 if (idx == 11 and thorough) else 900)
+                ["tr", "lin" if tl else "gam", idx], ["in_x"], to=3000 if (idx in (11, 16) and thorough) else 900)
     cps = total.CP_SUP if thorough else [4, 9, 10, 11]
     for idx in cps:
         for d in (True, False):
